@@ -11,7 +11,7 @@ from gridrv.oracles import datafiles, sph
 PROP = "C02"
 TITLE = "Every shipped angular grid is exact to its advertised degree"
 REQUIRED_HOOKS = ["AngularGrid.__init__"]
-REQUIRED_FAMILIES = ["lebedev", "spherical", "maxdet", "ahrens_beylkin"]
+REQUIRED_FAMILIES = ["lebedev", "spherical", "maxdet", "ahrens_beylkin", "cross-method-same-degree"]
 BUDGET = {"quick": 400, "thorough": 2400}
 EXHAUSTIVE = {"quick": False, "thorough": True}
 TOL = 1e-9
@@ -21,7 +21,7 @@ RULE = (
     "with l <= degree using an independent normalised recursion (tol 1e-9), |p|=1 (1e-12) and size==table size. "
     "thorough: all rows of all four methods (exhaustive over the shipped set); quick: all Lebedev and Ahrens-Beylkin rows, "
     "every spherical/maxdet row with N < 2000, the smallest and largest row, and a seed-rotated third of the rest. "
-    "A case is non-trivial when its full moment table was evaluated."
+    "Family cross-method-same-degree builds one degree with every method supporting it in one process with the default cache=True, twice, so grids are also observed when served from the module caches after other methods were used. A case is non-trivial when its full moment table was evaluated."
 )
 ASSUMPTIONS = [
     "supported rows = the library's public size->degree tables; exactness oracle = own float64 recursion validated against mpmath at start-up",
@@ -43,6 +43,16 @@ def cases(tier, seed):
                 if not keep:
                     continue
             out.append((m, {"degree": d, "size": s, "by": "size" if i % 3 == 2 else "degree"}, cost))
+    # the same degree requested from every method that supports it, in one process with the DEFAULT cache=True
+    # (a cache that confuses methods or degrees hands out a grid of the wrong size that may still be exact)
+    by_deg = {}
+    for m in METHODS:
+        for d, s in datafiles.table(m):
+            by_deg.setdefault(d, []).append((m, s))
+    for d, lst in sorted(by_deg.items()):
+        if len(lst) < 2 or (tier == "quick" and d > 70 and (d + seed) % 5):
+            continue
+        out.append(("cross-method-same-degree", {"degree": d, "order": (d + seed) % 2}, sum(s for _, s in lst) * (d + 1.0) ** 2 * 1.5))
     return out
 
 
@@ -62,6 +72,18 @@ def setup(ctx):
 def run_case(ctx, family, params):
     from grid.angular import AngularGrid
 
+    if family == "cross-method-same-degree":
+        d = params["degree"]
+        rows = [(m, dict(datafiles.table(m))[d]) for m in METHODS if d in dict(datafiles.table(m))]
+        if params["order"]:
+            rows = rows[::-1]
+        for rep in range(2):  # second round is served from the module caches
+            for m, s in rows:
+                subj = f"{m}_{d}_{s}"
+                with ctx.guard("constructible", subj):
+                    g = AngularGrid(degree=d, method=m)  # default cache=True
+                    ctx.check("advertised-size", subj + ":after-other-methods", (int(g.degree), int(g.size), len(g.points)) == (d, s, s), detail={"got": [int(g.degree), int(g.size), len(g.points)], "round": rep})
+        return
     m, d, s = family, params["degree"], params["size"]
     subj = f"{m}_{d}_{s}"
     with ctx.guard("constructible", subj):
